@@ -98,7 +98,7 @@ type Fault struct {
 	Op      string // backend op name ("" = any)
 	PathSfx string // path suffix ("" = any)
 	Nth     int
-	Kind    string // eio enospc eacces short stall stall_ret
+	Kind    string // eio enospc eacces short shortok stall stall_ret
 	Short   int    // bytes actually transferred for "short"
 	Stall   time.Duration
 	Repeat  bool
@@ -1181,7 +1181,7 @@ func (fl *File) writeAt(op string, b []byte, off int64) (int, error) {
 	f := fl.v.fs
 	var n int
 	var err error
-	if flt != nil && flt.Kind != "short" {
+	if flt != nil && flt.Kind != "short" && flt.Kind != "shortok" {
 		if e := faultErr(flt); e != nil {
 			err = pe("write", fl.name, e)
 		}
@@ -1204,6 +1204,12 @@ func (fl *File) writeAt(op string, b []byte, off int64) (int, error) {
 				data = b[:flt.Short]
 				err = pe("write", fl.name, syscall.ENOSPC)
 				simrt.Fault("fs.short_write")
+			}
+			if flt != nil && flt.Kind == "shortok" && flt.Short < len(b) {
+				// fewer bytes taken and NO error (a backend bending io.WriterAt's contract): the count is all
+				// the caller has to go by
+				data = b[:flt.Short]
+				simrt.Fault("fs.short_write_no_error")
 			}
 			if len(data) > 0 {
 				fl.in.data.writeAt(data, off)
